@@ -24,9 +24,9 @@ CHECKS["C01"] = {
     "level": "proof",
     "lean_targets": ["Yae.Props.C01"],
     "streams": [
-        EVAL(4000, 60000, kinds=["run"], projections=["skeleton"], oracles=["wf"]),
-        VM(1500, 20000, kinds=["vmrun"], projections=["skeleton"], oracles=["wf"]),
-        {"name": "envcheck", "quick_n": 1500, "thorough_n": 20000, "oracles": ["envcheck-wrong-result"]},
+        EVAL(4000, 60000, kinds=["run"], projections=["skeleton"], oracles=["wf", "process-crash"]),
+        VM(1500, 20000, kinds=["vmrun"], projections=["skeleton"], oracles=["wf", "process-crash"]),
+        {"name": "envcheck", "quick_n": 1500, "thorough_n": 20000, "oracles_only": True, "oracles": ["envcheck-wrong-result"]},
     ],
     "explanation": "Preservation is a theorem over the model: check Γ e = ok (T, e') and a conforming environment imply every value eval produces is deeply well formed (WF) with own type tyEq T, irrespective of object field order (C01.preservation, annotated_sound, check_annotated, builtin_sound for all 53 strict built-ins, host_respects, field_order, no_nil); the VM inherits it through C03. The model is tied to the code by the eval/vm streams under the type-skeleton projection, and the implementation-side oracle walks every result of all four back ends against the inferred type with types.Equals.",
     "assumptions": ["host functions respect their registered signature (hostRespects, decidable for the harness's host zoo); type-variable names of registered signatures do not start with s/t (okVars; true of the built-in table by decide)"],
@@ -37,8 +37,8 @@ CHECKS["C02"] = {
     "lean_targets": ["Yae.Props.C02", "Yae.Props.C11"],
     "streams": [
         EVAL(4000, 60000, kinds=["run", "check"], projections=["class", "accept"],
-             oracles=["internal-fault", "compile-internal-fault", "check-internal-fault"]),
-        VM(1500, 20000, kinds=["vmrun", "verify"], projections=["class", "verify"], oracles=["compile-internal-fault"]),
+             oracles=["internal-fault", "compile-internal-fault", "check-internal-fault", "process-crash"]),
+        VM(1500, 20000, kinds=["vmrun", "verify"], projections=["class", "verify"], oracles=["compile-internal-fault", "process-crash"]),
     ],
     "explanation": "Progress is a theorem over the model: an accepted program in a conforming environment, with fuel above its depth, yields a well-typed value or one of the four documented failures (or a deliberately failing host function / an extern-table miss of the harness) — never another stuck outcome, never fuel (C02.progress, no_internal_fault); exact characterisations of each partial operation (exact_index, exact_key, exact_mod, exact_regex) and totality of get-with-default and every other strict built-in (total_get, total, fail_exact). For the VM: verified code never underflows, never meets a bad opcode or constant kind and terminates within the code size (C11.verify_sound). Tie: outcome-class projection of the eval/vm streams; the oracle classifies every Go panic of all four back ends.",
     "assumptions": ["same as C01"],
@@ -48,7 +48,7 @@ CHECKS["C03"] = {
     "level": "proof",
     "lean_targets": ["Yae.Props.C03", "Yae.Props.C02"],
     "streams": [
-        EVAL(4000, 60000, kinds=["run"], oracles=["backend-divergence", "callthread-exec-limit", "vm-dynamic-lazy"]),
+        EVAL(4000, 60000, kinds=["run"], oracles=["backend-divergence*", "callthread-exec-limit", "vm-dynamic-lazy"]),
         VM(2500, 30000, kinds=["vmrun", "vmcode"]),
     ],
     "explanation": "Compiler-correctness simulation over the model: for every well-annotated tree whose reference evaluation is not stuck (C01/C02), running the compiled code on the model machine equals the reference evaluator — same value or failure and the same log of host calls and prints (C03.vm_correct, vm_same_events); the compiler refuses well-annotated trees only for an encoding overflow (refuse_overflow). The reference evaluator is tied to the closure compiler and the AST interpreter, the model compiler and machine to vm.Compile and both dispatch loops by the eval and vm streams (bytes, constant pool, outcome, event order), and the oracle compares the four back ends pairwise on every accepted program.",
@@ -59,8 +59,8 @@ CHECKS["C04"] = {
     "level": "proof",
     "lean_targets": ["Yae.Props.C04"],
     "streams": [
-        EVAL(5000, 80000, kinds=["run"], projections=["value", "class"]),
-        {"name": "num", "quick_n": 20000, "thorough_n": 300000},
+        EVAL(5000, 80000, kinds=["run"], projections=["value", "class"], model_is_oracle=True),
+        {"name": "num", "quick_n": 20000, "thorough_n": 300000, "model_is_oracle": True},
         {"name": "valrel", "quick_n": 3000, "thorough_n": 40000},
     ],
     "explanation": "The model's built-in bodies are the formal semantics (IEEE arithmetic through Lean Float, bit-exact trunc/floor/ceil/round/min/max/abs, float->int as amd64 does it, shortest-round-trip number rendering, strconv quoting, rune-counted length, order-preserving de-duplicating set functions, get/isset, string conversion, calendar rendering of instants); proved laws: set functions are total, duplicate-free, keep first-occurrence order with the documented membership (union/intersect/diff_law), get agrees with isset, get is total, the comparison definitions (C04.*). Tie: full-value projection of the eval stream over boundary pools, the num stream (parse/format/convert, 60k cases per run, bit for bit), the valrel stream.",
@@ -71,8 +71,8 @@ CHECKS["C05"] = {
     "level": "proof",
     "lean_targets": ["Yae.Props.C05", "Yae.Props.C17"],
     "streams": [
-        EVAL(5000, 80000, kinds=["check"], projections=["accept", "type", "annot"], oracles=["check-internal-fault", "mono-key-field-order", "poly-first-match-bot"]),
-        {"name": "types", "quick_n": 8000, "thorough_n": 100000, "oracles": ["match-*"]},
+        EVAL(5000, 80000, kinds=["check"], projections=["accept", "type", "annot"], model_is_oracle=True, oracles=["check-internal-fault", "mono-key-field-order", "poly-first-match-bot"]),
+        {"name": "types", "quick_n": 8000, "thorough_n": 100000, "kinds": ["infer", "unify"], "oracles": ["match-*"]},
     ],
     "explanation": "A declarative typing relation Typed (Spec/Typing.lean) states the rules; proved: check accepts only typed programs with exactly the relation's type (sound_partial), accepts every typed program for every value of the type-variable counter (complete_partial, counter_irrelevant_partial), the relation is functional (unique), the annotated tree is the input plus attachments (erase); the checker's first-match rule vs the natural rule is characterised (overload_rules_coincide) with the kernel-checked D22 witness of their difference. Tie: check requests of the eval stream (accept/reject, inferred type, annotated tree) on type-directed programs and their type-breaking mutants with random overload sets.",
     "assumptions": ["PolyOK (the checker's inferFun agrees with the specification's matcher on every registered polymorphic signature) is a hypothesis of the C05 theorems, not yet derived; C17.match_sound/complete cover matching against ground types"],
@@ -82,7 +82,7 @@ CHECKS["C06"] = {
     "level": "proof",
     "lean_targets": ["Yae.Props.C06", "Yae.Props.C03"],
     "streams": [
-        EVAL(5000, 80000, kinds=["run"], projections=["calls", "class"], oracles=["backend-divergence"]),
+        EVAL(5000, 80000, kinds=["run"], projections=["calls"], oracles=["backend-divergence-calls"]),
         VM(1500, 20000, kinds=["vmrun"], projections=["calls"]),
     ],
     "explanation": "Unfolding theorems about the reference evaluator: if/&&/|| evaluate the condition once and only the selected operand (if_lazy, and_lazy, or_lazy, if_true/false), lazy host functions force exactly the thunks they choose (lazy_host), strict calls, list/map/object literals and subscripts evaluate operands once in source order and then emit exactly one call event (operands_in_order, strict_order_*, list/map/obj/subscript_order, host_invocation_event), the guard if(isset(m,k), m[k], d) never fails (guard_safe), evaluation is a function of its inputs (determined); the VM produces the same log (C03.vm_same_events). Tie: call-trace projection of the eval and vm streams with tracing, failing and lazy host functions in operand positions on all four back ends.",
@@ -94,7 +94,7 @@ CHECKS["C07"] = {
     "lean_targets": ["Yae.Props.C07"],
     "streams": [
         {"name": "envcheck", "quick_n": 3000, "thorough_n": 40000,
-         "oracles": ["envcheck-accepts-mismatch", "envcheck-rejects-equal", "envcheck-evaluated-on-reject", "envcheck-panic", "envcheck-wrong-result"]},
+         "oracles": ["envcheck-accepts-mismatch", "envcheck-rejects-equal", "envcheck-evaluated-on-reject", "envcheck-panic", "envcheck-wrong-result", "process-crash"]},
     ],
     "explanation": "Decision logic of the facade's environment check over the model (Conv.envCheck): rejected iff some compile-time name is unbound or bound to a value of a non-equal type, accepted otherwise with extra names and any field order allowed, verdict independent of iteration order; with C01 whatever passes is safe to run. Tie: envcheck stream through the public API (Compile, Callable) on pairs of struct / map / raw environments and their mutations, with a tracing host function making 'evaluates nothing' observable.",
     "assumptions": [],
@@ -105,7 +105,7 @@ CHECKS["C08"] = {
     "lean_targets": ["Yae.Props.C08"],
     "streams": [
         {"name": "parse", "quick_n": 8000, "thorough_n": 60000,
-         "oracles": ["parse-tree", "parse-span", "parse-nonassoc", "parse-accepts-malformed", "parse-rejects-wellformed", "parse-fractional-bp", "parse-huge-bp", "parse-harness"]},
+         "oracles": ["parse-tree", "parse-span", "parse-nonassoc", "parse-accepts-malformed", "parse-rejects-wellformed", "parse-fractional-bp", "parse-huge-bp", "parse-harness", "process-crash"]},
     ],
     "explanation": "The Pratt parser is modelled in full (grammar tables, nud/led functions, float32 binding powers with BP.Prev, the one-pass list-or-map rule, positions) and tied to parser.Parse by the parse stream: 21 operator tables x random trees rendered with minimal and redundant parentheses x all short token sequences x mutations, full tree and positions compared; an independent precedence-climbing reference parser in the harness decides 'the tree dictated by the declarations', spans, non-associativity and rejection of malformed input. Proved over the model: termination within the stated fuel and the non-associative chain check (Props/C08.lean); the Respects/yield completeness theorems of DESIGN Appendix A.1 are not proved, hence level 'other'.",
     "assumptions": ["operator tables that redefine built-in tokens ( ( [ { : , <sym> ) are outside the well-formed tables the property is read for (reported as parse-shadowed-builtin, informational)"],
@@ -116,7 +116,7 @@ CHECKS["C09"] = {
     "lean_targets": ["Yae.Props.C09"],
     "streams": [
         {"name": "lex", "quick_n": 15000, "thorough_n": 200000,
-         "oracles": ["lex-partition", "lex-word", "lex-longest", "lex-shadowed"]},
+         "oracles": ["lex-partition", "lex-word", "lex-longest", "lex-shadowed", "process-crash"]},
     ],
     "explanation": "The lexer is modelled in full (rule order, stable length-descending operator sort, keyword / primitive-operator rules, the ten regular expressions as hand-written recognisers, Unicode tables regenerated from Go) and tied to lexer.Lex by the lex stream (exhaustive short strings over a mixed alphabet, random token soups, 13 operator sets; tokens and positions compared); implementation-side oracles check the partition property, whole-word matching, longest match and the built-in '.'/'?' rule directly. Proved over the model: the lexer loop terminates within input length + 1 steps and every token is non-empty; the partition theorem of DESIGN §8 is not proved, hence level 'other'.",
     "assumptions": [],
@@ -127,7 +127,7 @@ CHECKS["C10"] = {
     "lean_targets": ["Yae.Props.C10"],
     "streams": [
         {"name": "desugar", "quick_n": 6000, "thorough_n": 50000,
-         "oracles": ["desugar-core", "desugar-idempotent", "desugar-idempotent-group-member", "desugar-mutates-input", "desugar-order", "desugar-shape"]},
+         "oracles": ["desugar-core", "desugar-idempotent", "desugar-idempotent-group-member", "desugar-mutates-input", "desugar-order", "desugar-shape", "process-crash"]},
     ],
     "explanation": "Over the model of trans.Desugar: the result contains only core forms (core), desugaring is idempotent on every tree without a parenthesised member callee (idem_partial, with the kernel-checked witness (o.f)(x) of the excluded shape), the five rewriting equations hold by definition and receiver/arguments keep their order (shape_*); type and value of sugar are those of its desugaring because the pipeline has no other semantics for it. Tie: desugar stream on every tree the parse stream accepted plus hand-built ones; oracles for core-only, idempotence, input purity (tree serialised before/after) and order against an independent rule-based reference.",
     "assumptions": [],
@@ -147,10 +147,10 @@ CHECKS["C12"] = {
     "level": "other",
     "lean_targets": ["Yae.Props.C12"],
     "streams": [
-        {"name": "api", "quick_n": 1500, "thorough_n": 20000, "oracles": ["api-panic", "api-slow", "api-superpoly*"], "timeout": 3000},
-        {"name": "history", "quick_n": 300, "thorough_n": 3000, "oracles": ["history-panic"]},
-        {"name": "conv", "quick_n": 2000, "thorough_n": 20000, "oracles": ["conv-panic"]},
-        {"name": "debug", "quick_n": 800, "thorough_n": 8000, "oracles": ["debug-panic"]},
+        {"name": "api", "quick_n": 1500, "thorough_n": 20000, "oracles": ["api-panic", "api-slow", "api-superpoly*", "process-crash"], "timeout": 3000},
+        {"name": "history", "quick_n": 300, "thorough_n": 3000, "oracles_only": True, "oracles": ["history-panic", "process-crash"]},
+        {"name": "conv", "quick_n": 2000, "thorough_n": 20000, "oracles_only": True, "oracles": ["conv-panic"]},
+        {"name": "debug", "quick_n": 800, "thorough_n": 8000, "oracles_only": True, "oracles": ["debug-panic", "process-crash"]},
     ],
     "explanation": "Partial by nature. Proved over the model: every stage is a total function returning a value or an error, with explicit fuel bounds (lexer: input length + 1; parser: 4*tokens + 32 call depth; unify: size of the ground side; eval: expression depth; VM: code size, C11). Not expressible in a model: wall-clock budgets, goroutine stack exhaustion, process death. The api stream is the failing-input search for those: random bytes/runes, token-level mutations of valid programs, bracket nests to depth 2000, operator chains, 14 kinds of host values through Eval / Compile+Callable / Debug with a per-input time budget, and growth families timed at increasing depth.",
     "assumptions": ["testing, not proof, for promptness and panic containment of the Go facade"],
@@ -160,9 +160,9 @@ CHECKS["C13"] = {
     "level": "proof",
     "lean_targets": ["Yae.Props.C13", "Yae.Props.C06"],
     "streams": [
-        {"name": "history", "quick_n": 800, "thorough_n": 10000, "oracles": ["history-*"]},
+        {"name": "history", "quick_n": 800, "thorough_n": 10000, "oracles": ["history-*", "process-crash"]},
         EVAL(3000, 40000, kinds=["run"], projections=["prints"]),
-        {"name": "valrel", "quick_n": 2000, "thorough_n": 30000, "oracles": ["valrel-canonical"]},
+        {"name": "valrel", "quick_n": 2000, "thorough_n": 30000, "oracles_only": True, "oracles": ["valrel-canonical"]},
     ],
     "explanation": "The model is a pure function of (source, environment): evaluation is determined (C06.determined), renderings and string() are invariant under any re-ordering of map entries at any depth (C13.texts_invariant, render_map_perm, stringify_map_perm, valEq_map_perm) and object rendering under field permutation (render_obj_perm); the only events are host calls and print lines. Tie: the history stream plays random Compile/invoke sequences on ONE engine with shared environment objects (structs, *types.Env/*val.Env, maps), each invoke twice, against fresh engines with fresh copies, with stdout captured and host values deep-compared; the prints projection of the eval stream.",
     "assumptions": ["string() of an object follows declaration order by design (kernel-checked example C13.stringify_obj_declaration_order); it is a function of the environment's contents, which include the field order"],
@@ -183,8 +183,8 @@ CHECKS["C15"] = {
     "lean_targets": ["Yae.Props.C15"],
     "streams": [
         {"name": "conv", "quick_n": 4000, "thorough_n": 50000,
-         "oracles": ["conv-wf", "conv-type-disagrees", "conv-content", "conv-unstable-type", "conv-error-missing", "conv-panic"]},
-        {"name": "envcheck", "quick_n": 1000, "thorough_n": 10000, "oracles": ["envcheck-panic"]},
+         "oracles": ["conv-wf", "conv-type-disagrees", "conv-content", "conv-unstable-type", "conv-error-missing", "conv-panic", "process-crash"]},
+        {"name": "envcheck", "quick_n": 1000, "thorough_n": 10000, "oracles_only": True, "oracles": ["envcheck-panic"]},
     ],
     "explanation": "Host data is modelled as a mirror of reflect (GoType/GoVal) with conv.TypeOf/ValOf/TypeEnvOf/ValEnvOf as total functions (depth limit, nil rules, tags, first-element typing, key collisions through Key()); tied by the conv stream: reflect-built values (StructOf/SliceOf/MapOf with tags, pointers, interfaces, all sized numerics, times, unsupported kinds, depth 98..103) serialised independently of conv. Oracles: well-formed result, TypeOf equals the value's type, contents equal the original, type stability across values of one Go type, errors for nil / mixed / unsupported / too deep. Proved over the model: depth and error clauses that are direct (Props/C15.lean); the wf/agree theorems are not yet proved, hence level 'other'.",
     "assumptions": ["Go map iteration order is random: conv takes element types and error precedence from the first key iterated; the model is compared modulo iteration order (conv.among)"],
@@ -194,8 +194,8 @@ CHECKS["C16"] = {
     "level": "proof",
     "lean_targets": ["Yae.Props.C16", "Yae.Props.C02"],
     "streams": [
-        EVAL(4000, 60000, kinds=["check", "run"], projections=["accept", "class"], oracles=["wf", "internal-fault"]),
-        {"name": "conv", "quick_n": 1500, "thorough_n": 20000, "oracles": ["conv-wf"]},
+        EVAL(4000, 60000, kinds=["check", "run"], projections=["accept"]),
+        {"name": "conv", "quick_n": 1500, "thorough_n": 20000, "oracles_only": True, "oracles": ["conv-wf"]},
     ],
     "explanation": "Proved: unification of a pattern with an optional type succeeds only for a variable, an optional pattern (or top, which no registered signature contains) (no_coercion, builtins_no_top); in every accepted call an optional argument meets a type-variable or optional parameter (accepted_call_no_coercion); by decide over the regenerated built-in table the only optional parameter is get's and the bare-variable positions are listed (sole_eliminator); member and subscript on an optional are rejected (member_rejected, subscript_rejected); get(optional, d) yields payload or default (get_maybe_spec); accepted programs over environments with absent values never fail because of them (C02.progress with WF admitting nothing). Tie: eval stream with optional-typed variables present/absent and nested, conv stream with nil pointers/slices/maps.",
     "assumptions": [],
@@ -205,7 +205,7 @@ CHECKS["C17"] = {
     "level": "proof",
     "lean_targets": ["Yae.Props.C17"],
     "streams": [
-        {"name": "types", "quick_n": 20000, "thorough_n": 300000, "oracles": ["tyeq-*", "unify-*", "match-*"]},
+        {"name": "types", "quick_n": 20000, "thorough_n": 300000, "model_is_oracle": True, "oracles": ["tyeq-*", "unify-*", "match-*"]},
     ],
     "explanation": "Theorems over the model of types.Equals / types.Unify: equivalence on well-formed types, coincidence with structural identity by field name (tyEq_iff_structEq), matching sound and complete against variable-free types with sufficient fuel (match_sound, match_complete, unify_fuel_sufficient), the bottom/top absorption rules (unify_bot_right/left); the model is tied to the code by the types stream (Equals, Unify, inferFun on generated type pairs) and by implementation-side oracles (reflexive, symmetric, transitive, structural; the substitution unifies both sides; acyclic).",
     "assumptions": ["general two-sided unification (both sides with variables) is covered by correspondence and the implementation-side oracle, not by a theorem; the theorems cover matching against variable-free types, which is the only use the checker makes of it"],
@@ -215,7 +215,7 @@ CHECKS["C18"] = {
     "level": "proof",
     "lean_targets": ["Yae.Props.C18"],
     "streams": [
-        {"name": "valrel", "quick_n": 6000, "thorough_n": 80000, "oracles": ["valrel-*"]},
+        {"name": "valrel", "quick_n": 6000, "thorough_n": 80000, "oracles": ["valrel-*", "process-crash"]},
         {"name": "num", "quick_n": 10000, "thorough_n": 100000},
     ],
     "explanation": "Over the model of val.Equals / String / Key and the set functions: == is symmetric on well-formed values and reflexive exactly on values whose numeric leaves are self-equal (valEq_symm, valEq_refl_iff); rendering is invariant under permutation of map entries and of object fields (render_map_perm, render_obj_perm); for tolerance-separated values equal implies same text and same set element (equal_imp_same_text_partial, equal_imp_same_set_element); for numbers, strings and booleans equal iff same text iff same key (prim_equal_iff_same_text/key); distinct numbers never render alike or collide as keys (numbers_render_apart, numbers_keys_apart; for all integral doubles up to 2^63 with no assumption: int_range_numbers_render_apart). Tie: valrel stream (pairs: copy, field/insertion-permuted copy, one-leaf mutants at tolerance edges, unrelated) comparing ==, renderings, keys, string(), union membership; num stream for rendering.",
@@ -227,7 +227,7 @@ CHECKS["C19"] = {
     "lean_targets": ["Yae.Props.C19"],
     "streams": [
         {"name": "debug", "quick_n": 2500, "thorough_n": 30000,
-         "oracles": ["debug-result-differs", "debug-record", "debug-record-shifted", "debug-render-firstline", "debug-render-missing-value", "debug-panic"]},
+         "oracles": ["debug-result-differs", "debug-record", "debug-record-shifted", "debug-render-firstline", "debug-render-missing-value", "debug-panic", "process-crash"]},
     ],
     "explanation": "Debug evaluation is the reference evaluator with dbg = true (the same definition, so same result by a theorem: C19.same_result), the record is the fold of its dbg events through Record.Rec, rendering is modelled in full (Model/Debug.lean) and tied by the debug stream (result, hook-exported entries, report text) on single-line programs with non-ASCII identifiers, multi-line values, unevaluated lazy branches, lazy host functions; oracles: same result as plain evaluation, entries equal an independent instrumented walk, first line is the source, every recorded value shown at its column. The render theorems of DESIGN §8 are not proved, hence level 'other'.",
     "assumptions": [],
@@ -238,7 +238,7 @@ CHECKS["C20"] = {
     "lean_targets": ["Yae.Props.C20"],
     "streams": [
         {"name": "sql", "quick_n": 3000, "thorough_n": 40000,
-         "oracles": ["sql-structure", "sql-quote", "sql-scalar", "sql-scalar-time-fraction", "sql-unreadable", "sql-panic"]},
+         "oracles": ["sql-structure", "sql-quote", "sql-scalar", "sql-scalar-time-fraction", "sql-unreadable", "sql-panic", "process-crash"]},
         {"name": "num", "quick_n": 5000, "thorough_n": 50000},
     ],
     "explanation": "ext/sql is modelled in full (criteria -> call tree -> type check against the SQL function table -> text with precedence-driven parentheses, fmtVal) together with a reference reader of the produced dialect with standard SQL precedence and an executable statement of C20 (c20Check: read(text) = flatten(tree), every string operand reads back as one literal); tied by the sql stream (random criteria trees to depth 4, adversarial strings and numbers, bound and unbound names, member access) where the Go oracle re-reads the text with an independent reader. Proved over the model: quoting round trip (Num.unquote_quote) and the scalar forms (Props/C20.lean); the structural theorem readSql (toSql c) = flatten c is checked per case by c20Check in both implementations, not proved, hence level 'other'.",
